@@ -889,9 +889,14 @@ impl<'a> Gen<'a> {
                     }
                 }
                 if ok && !map.is_empty() {
+                    // a body local that happens to share its name with the unit's name for the return value (`//@ret r`)
+                    // is a different variable: the signature's contract keeps `r` (a unit-added `//@param` that shares
+                    // its name with a local, e.g. the lock model's `state`, IS followed - the body text refers to it)
+                    let ret_names: Vec<String> = out.sections.iter().filter(|s| s.kind == "ret").map(|s| s.arg.trim().to_string()).collect();
+                    let sig_map: Vec<(String, String)> = map.iter().filter(|(o, _)| !ret_names.contains(o) || param_map.iter().any(|(po, _)| po == o)).cloned().collect();
                     for s in out.sections.iter_mut() {
                         if matches!(s.kind.as_str(), "sig" | "ret" | "param") {
-                            s.text = rename_idents(&s.text, &param_map);
+                            s.text = rename_idents(&s.text, &sig_map);
                             continue;
                         }
                         s.arg = rename_anchor_arg(&s.arg, &map);
